@@ -95,7 +95,7 @@ func startWorker() *workerProc {
 	cmd := exec.Command(os.Args[0], "worker")
 	in, _ := cmd.StdinPipe()
 	out, _ := cmd.StdoutPipe()
-	cmd.Stderr = nil
+	cmd.Stderr = os.Stderr
 	if err := cmd.Start(); err != nil {
 		panic(err)
 	}
@@ -169,6 +169,9 @@ func supervise(inPath, outPath string) {
 func guarded(run func(*sx.Node) *sx.Node, p *sx.Node) (res *sx.Node) {
 	defer func() {
 		if r := recover(); r != nil {
+			if os.Getenv("VERIF_DEBUG") != "" {
+				fmt.Fprintf(os.Stderr, "harness-level panic: %v\n%s\n", r, debug.Stack())
+			}
 			res = sx.A("panic")
 		}
 	}()
